@@ -788,4 +788,47 @@ Section Proofs.
     - destruct (W5 eq_refl) as (D & _). repeat split; auto; lia.
     - repeat split; auto; try lia; try discriminate. destruct (temporal s); simpl; lia.
   Qed.
+  (* ---------- assigning a parameter its own current value is the identity (the setters'
+     normalisations are idempotent on reachable states) *)
+  Lemma aupd_nth_same {A} (l : list A) i d : aupd l i (nth i l d) = l.
+  Proof. revert i; induction l as [|h t IH]; intros [|i]; simpl; auto. now rewrite IH. Qed.
+
+  Lemma checked_self c s : InB c s -> checked O c s = Ok s.
+  Proof. unfold InB, checked. now intros ->. Qed.
+
+  Theorem self_assignment_identity c s : WF s -> InB c s ->
+    step O c s (SetVarRaw (var_raw s)) = Ok s /\ step O c s (SetNugget (nugget s)) = Ok s /\
+    step O c s (SetLenScale [len_scale s]) = Ok s /\ step O c s (SetAnis (anis s)) = Ok s /\
+    step O c s (SetAngles (angles s)) = Ok s /\ step O c s (SetDim (dim s)) = Ok s /\
+    step O c s (SetRescale (Some (rescale s))) = Ok s /\
+    (forall i, i < length (opts s) -> step O c s (SetOpt i (nth i (opts s) (n0 O))) = Ok s).
+  Proof.
+    intros W B. pose proof W as (W1 & W2 & W3 & W4 & W5 & W6 & W7 & W8).
+    assert (Hf : latlon s = true -> firstn 2 (anis s) = [n1 O; n1 O]).
+    { intros L. now destruct (W5 L) as (_ & ? & _). }
+    assert (Hang : set_model_angles O (dim s) (angles s) (latlon s) (temporal s) = angles s).
+    { apply set_model_angles_id; auto. intros L. now destruct (W5 L) as (_ & _ & ?). }
+    assert (E1 : with_var_raw s (var_raw s) = s) by (destruct s; reflexivity).
+    assert (E2 : with_nugget s (nugget s) = s) by (destruct s; reflexivity).
+    assert (E3 : with_len_anis s (len_scale s) (anis s) = s) by (destruct s; reflexivity).
+    assert (E4 : with_angles s (angles s) = s) by (destruct s; reflexivity).
+    assert (E5 : with_dim s (dim s) (len_scale s) (anis s) (angles s) = s) by (destruct s; reflexivity).
+    assert (E6 : with_rescale s (rescale s) = s) by (destruct s; reflexivity).
+    assert (E7 : with_opts s (opts s) = s) by (destruct s; reflexivity).
+    simpl. repeat split.
+    - unfold set_var_raw. rewrite E1. now apply checked_self.
+    - unfold set_nugget. rewrite E2. now apply checked_self.
+    - unfold set_len, bind. rewrite set_len_anis_scalar_id by auto. simpl. rewrite E3. now apply checked_self.
+    - unfold set_anis_op, bind. rewrite set_len_anis_scalar_id by auto. simpl. rewrite E3. now apply checked_self.
+    - unfold set_angles_op. rewrite Hang, E4. now apply checked_self.
+    - unfold set_dim.
+      assert (Ed : (if latlon s then 3 + b2n (temporal s) else dim s) = dim s).
+      { destruct (latlon s) eqn:L; auto. now destruct (W5 eq_refl) as (-> & _). }
+      rewrite Ed. destruct (dim s <? 1) eqn:E; [apply Nat.ltb_lt in E; lia|].
+      unfold bind. rewrite set_len_anis_scalar_id by (auto; discriminate). simpl.
+      rewrite Hang, E5. now apply checked_self.
+    - unfold set_rescale. rewrite W8, E6. reflexivity.
+    - intros i Hi. unfold set_opt. apply Nat.ltb_lt in Hi. rewrite Hi.
+      rewrite aupd_nth_same, E7. now apply checked_self.
+  Qed.
 End Proofs.
